@@ -147,7 +147,8 @@ func message2Chunks(message []byte, header *base.RtmpHeader, prevHeader *base.Rt
 
 	// 计算chunk数量，最后一个chunk的大小
 	lastChunkSize := chunkSize
-	if len(message)%chunkSize != 0 {
+	if len(message)%chunkSize != 0 || len(message) == 0 {
+		// 注意，空message也需要输出一个只有header的chunk
 		numOfChunk++
 		lastChunkSize = len(message) % chunkSize
 		maxNeededLen += lastChunkSize + maxHeaderSize
